@@ -191,6 +191,32 @@ _m('C10',
    'Axiom weight_times_variance >= 0; real-number semantics; negative and NaN weights are refused by register (checked).',
    'DESIGN.md §3 C10')
 
+_m('C14',
+   'numeric abstract interpretation of constructors and draw() (return-range summaries for inner distributions, loop widening, order facts); stream-discipline / init-before-use / cache-invalidation / shared-state lints; wrapper table cross-check',
+   'Decides that construction and draw() of all 19 distributions cannot raise an implicit arithmetic error for any '
+   'admitted parameter set and any stream output in [0,1) (every log/division/pow/sqrt/floor sink and the range '
+   'refusals of erf_inv/beta proved unreachable; two local range facts are hand proofs with written arguments), the '
+   'sign/clamp part of the support from analysed return ranges and order facts, that uniforms come only from the '
+   'instance\'s own stream or from inner distributions that _set_stream rebuilds with the new stream (old stream '
+   'unreachable after re-pointing), that cached draw state is invalidated on re-pointing, that no class or module '
+   'state is shared between instances, and that each of the 41 quantity wrappers builds the quantity it is named '
+   'after. Exact upper bounds for uniform/triangular/beta, termination of rejection loops and overflow are not '
+   'decided; equality of twin draws follows from these rules plus C12.',
+   'Parameters finite; real-number semantics; StreamInterface ranges assumed (C12 decides wiring only); two hand-proved '
+   'range facts listed in the evidence.',
+   'DESIGN.md §3 C14')
+
+_m('C15',
+   'numeric abstract interpretation of every density / probability / cdf function with a free argument; support table evaluated under order facts; guard checks for the inverse functions',
+   'NARROW CLAIM: decides evaluability (no arithmetic error for any argument), non-negativity of every density and '
+   'probability on every return path, that every reachable return outside the documented support is exactly 0 (cdf: 0 '
+   'below, 1 above) for all 17 bounded supports, and that the inverse functions guard their domains. It does NOT decide '
+   'the statistical core of the property (samples follow the density, normalisation, monotone and mutually inverse '
+   'cdf/inverse cdf to the documented accuracy): those are statements about numerical values beyond any sound static '
+   'argument in reach.',
+   'Supports transcribed from the docstrings into the checker; finite arguments; real-number semantics.',
+   'DESIGN.md §3 C15')
+
 
 def finalize():
     for i in range(1, 19):
